@@ -230,19 +230,19 @@ theorem md_pop_rip (σ : St) (r : Nat) :
   dsimp only [md_get_rip]
   cases readMem σ.mem (σ.get X86.RSP).toNat 8 <;> rfl
 
-theorem md_step_push (c : Cfg) {pre : List Region} {base size : Nat} {σ : St} {slots : List Nat} (r : Nat)
-    (h : md_NS pre base size σ slots) (hroom : 8 * (slots.length + 1) ≤ size) :
+theorem md_step_push (c : Cfg) {pre : List Region} {base size top : Nat} {hi : Nat → BitVec 8} {σ : St} {slots : List Nat} (r : Nat)
+    (h : md_NS pre base size top hi σ slots) (hroom : base + 8 * (slots.length + 1) ≤ top) :
     ∃ σ1, md_Step c (.push r) σ σ1 ∧ (∀ k, σ1.get k = (σ.set 4 (σ.get 4 - 8)).get k) ∧
-      md_NS pre base size σ1 (slots ++ [(σ.get r).toNat]) := by
+      md_NS pre base size top hi σ1 (slots ++ [(σ.get r).toNat]) := by
   obtain ⟨σ1, hp, hreg, _, _, hlog, hmis, hns⟩ := md_ns_push h hroom (σ.get r)
   refine ⟨σ1, ⟨?_, hlog, hmis⟩, fun k => get_congr _ _ k hreg, hns⟩
   intro next
   simp only [exec, md_get_rip, md_push_rip, hp, Option.map_some]
 
-theorem md_step_pop (c : Cfg) {pre : List Region} {base size : Nat} {σ : St} {slots : List Nat} {v : BitVec 64} (r : Nat)
-    (h : md_NS pre base size σ (slots ++ [v.toNat])) (hr : r ≠ 4) :
+theorem md_step_pop (c : Cfg) {pre : List Region} {base size top : Nat} {hi : Nat → BitVec 8} {σ : St} {slots : List Nat} {v : BitVec 64} (r : Nat)
+    (h : md_NS pre base size top hi σ (slots ++ [v.toNat])) (hr : r ≠ 4) :
     md_Step c (.pop r) σ ((σ.set 4 (σ.get 4 + 8)).set r v) ∧
-      md_NS pre base size ((σ.set 4 (σ.get 4 + 8)).set r v) slots := by
+      md_NS pre base size top hi ((σ.set 4 (σ.get 4 + 8)).set r v) slots := by
   obtain ⟨hp, hns⟩ := md_ns_pop h
   constructor
   · refine ⟨?_, rfl, rfl⟩
